@@ -9,7 +9,9 @@ CONSTANTS
   Metas = {"none", "fillm", "fill", "fillp"}
   Customs = {"none", "two"}
   Blindeds = {0, 2}
-  CodeClasses = {"node_temp", "node_perm", "perm", "update", "plain", "recipient"}
+  CodeClasses = {"node_temp", "node_perm", "perm", "plain", "recipient"}
+  ULens = {0, 2, 136}
+  KeyHops = {20, 21}
   DLens = {0, 254, 300}
   EncFwd = 46
   EncRecv = 76
